@@ -344,6 +344,25 @@ def handle (line : String) : String :=
         | _, _ => ""
       s!"{case}\tres={String.ofList res}\tll={String.ofList ((kacWords n).flatMap (fun h => showFound (findLL d pre.reverse h)))}{real}"
     | _, _, _ => s!"{case}\tbad-case"
+  | ["itok", fam, kind, shex] =>
+    -- the tokens inside a tag: what `scanPieces` records behind the start delimiter (and its marker)
+    match parseFam fam, unhex shex with
+    | some d, some s =>
+      let line := kind = "s"
+      let e := if kind = "v" then d.ve else if kind = "b" then d.be else []
+      let s' := if line then s else
+        match s with
+        | c :: r => if c = '-' || c = '+' then r else s
+        | [] => s
+      let (ps, res) := scanPieces e line .top 0 s' []
+      let toks := ps.filterMap (fun p => match p with | .tok t => some (hexOf t) | .blank _ => none)
+      let fin := match res with
+        | .found rest ws => s!"found:{hexOf rest}:{match ws with | .dflt => "d" | .remove => "-" | .preserve => "+"}"
+        | .eof => "eof"
+        | .error => "err"
+        | .unsupported => "unsupported"
+      s!"{case}\ttoks={",".intercalate toks}\tend={fin}\tcat={if piecesSrc ps ++ (match res with | .found rest ws => (if line then s'.drop (piecesSrc ps).length |>.take (s'.length - (piecesSrc ps).length - rest.length) else ws.src ++ e) ++ rest | _ => s'.drop (piecesSrc ps).length) = s' then 1 else 0}"
+    | _, _ => s!"{case}\tbad-case"
   | ["entry", tlk, fam, segs] => handleSeg case fields tlk fam segs
   | ["wrap", tlk, fam, _kind, segs] => handleSeg case fields tlk fam segs
   | ["seg", tlk, fam, segs] => handleSeg case fields tlk fam segs
